@@ -36,6 +36,13 @@ func c20Gen(seed uint64, run int, tier string) *Case {
 		total = 400
 	}
 	c.Cfg["total"] = int64(total)
+	if run%2 == 0 && (run%1000 == 2 || (tier == "thorough" && run%100 == 2)) {
+		// more entries than a 16-bit counter holds: 'the N most recent' does not depend on how many came before
+		c.Stratum = "sequential-long-run"
+		c.Cfg["total"] = int64(r.Pick(65536, 65536+n/2, 65536+n-1, 65538, 131072+n/2, 65536+n+3))
+		c.Cfg["maxsteps"] = 4000000
+	}
+	c.Cfg["palette"] = int64(r.Pick(0, 0, 0, 1, 2)) // which numbers serve as entry types
 	c.Cfg["batches"] = int64(r.Range(1, 4))
 	c.Cfg["nfilters"] = int64(r.Range(1, 6))
 	return c
@@ -69,6 +76,8 @@ func c20Exec(x *Ctx) {
 	total := int(c.cfg("total"))
 	batches := int(c.cfg("batches"))
 	r := NewRand(c.Seed ^ 0x2020)
+	// a type is any int: the small ones, numbers at and beyond the width of a machine word's bit positions, negatives
+	tmap := [][]int{{0, 1, 2, 3, 4, 5, 6}, {0, 63, 64, 65, 100, 128, 1000}, {0, -1, 1 << 20, 1 << 31, -64, 7, 1<<32 + 1}}[int(c.cfg("palette"))%3]
 	var entries []*c20Entry
 	var results []*c20Result
 	byID := map[int]*c20Entry{}
@@ -119,7 +128,7 @@ func c20Exec(x *Ctx) {
 			}
 			var es []*c20Entry
 			for k := 0; k < mine; k++ {
-				e := &c20Entry{id: nextID, owner: r.Intn(3), typ: r.Pick(1, 2, 4, 3, 6, 5, 1, 2, 0), producer: pi, seq: len(es)} // types that share bits are different types
+				e := &c20Entry{id: nextID, owner: r.Intn(3), typ: tmap[r.Pick(1, 2, 4, 3, 6, 5, 1, 2, 0)], producer: pi, seq: len(es)} // types that share bits are different types
 				nextID++
 				es = append(es, e)
 				byID[e.id] = e
@@ -145,7 +154,7 @@ func c20Exec(x *Ctx) {
 					for y := fr.Intn(6); y > 0; y-- {
 						rt.Yield(rt.SiteActor)
 					}
-					doFilter(fr.Pick(-1, -1, 0, 1, 2), fr.Pick(0, 0, 1, 2, 4, 3, 6))
+					doFilter(fr.Pick(-1, -1, 0, 1, 2), tmap[fr.Pick(0, 0, 1, 2, 4, 3, 6)])
 				}
 			}))
 		}
@@ -161,7 +170,7 @@ func c20Exec(x *Ctx) {
 		// logging has stopped and the system is quiescent: Filter must now be exact
 		filters := [][2]int{{-1, 0}}
 		for k := int(c.cfg("nfilters")); k > 0; k-- {
-			filters = append(filters, [2]int{r.Pick(-1, 0, 1, 2), r.Pick(0, 1, 2, 4, 3, 6)})
+			filters = append(filters, [2]int{r.Pick(-1, 0, 1, 2), tmap[r.Pick(0, 1, 2, 4, 3, 6)]})
 		}
 		var exact []*c20Result
 		g := rt.Go(rt.SiteSpawn, func() {
@@ -211,6 +220,11 @@ func c20Exec(x *Ctx) {
 				}
 			}
 		}
+	}
+	if len(entries) > 3000 {
+		// the long sequential run: the reference ring above has decided every result exactly; the order graph
+		// below is quadratic in the number of entries and has nothing to add for a single producer
+		return
 	}
 	// every result: membership, matching, no duplicates, at most N, order consistent with what can be known
 	succ := map[int][]int{} // forced order edges a -> b (a logged before b)
